@@ -1,7 +1,7 @@
 (* C13: define-then-delete is the identity; feature dependencies stay consistent
    (statements only; proofs in DepsProofs.v / DepsTables.v). *)
 From Coq Require Import ZArith List Bool Arith Lia.
-From CV Require Import Base.Num C13.DepsModel C13.InvModel C13.DepsProofs C13.DepsTables C13.ModuleModel C13.ModuleProofs C13.DepsInv C13.ModuleInv C13.ModuleRooted C13.EnableExcl C13.EnableWitness C13.UserFeatures C13.CrossC08 C13.IdentityProofs Gen.GenDeps.
+From CV Require Import Base.Num C13.DepsModel C13.InvModel C13.DepsProofs C13.DepsTables C13.ModuleModel C13.ModuleProofs C13.DepsInv C13.ModuleInv C13.ModuleRooted C13.EnableExcl C13.EnableWitness C13.UserFeatures C13.CrossC08 C13.IdentityProofs C13.NameModel C13.SchedProofs Gen.GenDeps.
 Import ListNotations.
 Open Scope nat_scope.
 
@@ -577,4 +577,44 @@ Example C13_example_identity : exists m s1 s2,
 Proof.
   do 3 eexists. split; [vm_compute; reflexivity|]. split; [vm_compute; reflexivity|]. split; [vm_compute; reflexivity|].
   split; [vm_compute; reflexivity|]. split; [vm_compute; reflexivity|]. split; [vm_compute; reflexivity|]. split; vm_compute; reflexivity.
+Qed.
+
+(* ==== default names of unnamed biases (NameModel.v) ====
+   The default name of a bias is <type><rank>, rank = a per-type counter that counts every definition of the type, is not
+   decreased by deletions and is cleared by reset.  For EVERY sequence of {define a bias of any type (named or not, its
+   init succeeding or not), delete an unnamed bias, reset} from the empty state: the default names of the live unnamed biases
+   are pairwise distinct (and each rank is at most the counter of its type). *)
+Theorem C13_default_names_stay_distinct : forall (ps : list nop) s, n_inv s -> n_inv (n_run ps s).
+Proof. exact default_names_distinct. Qed.
+Print Assumptions C13_default_names_stay_distinct.
+
+Theorem C13_default_names_initial : n_inv n_empty.
+Proof. exact n_empty_inv. Qed.
+Print Assumptions C13_default_names_initial.
+
+(* the scenario of the seeded change C13_3: two unnamed biases of one type, the older one deleted, a third defined *)
+Example C13_example_default_names :
+  n_live (n_run [NDefine 0 true true; NDefine 0 true true; NDelete 0 1; NDefine 0 true true] n_empty) = [(0, 2); (0, 3)].
+Proof. vm_compute. reflexivity. Qed.
+
+(* ==== multiple time steps in the lifecycle model (ModuleModel.sched, SchedProofs.v) ====
+   The awake/asleep scheduling of colvarmodule::calc_colvars -- for every bias, then every variable, with timeStepFactor > 1,
+   at any step, in any state -- changes no class, link or availability, and keeps mutual exclusion (tables passing the check,
+   object graph with a height).  Tied: every step event of the histories that involves such an object is replayed. *)
+Theorem C13_sched_keeps_shape_and_exclusion : forall (T : tables) (ht : nat -> nat) n step (ots : list (nat * nat)) s s',
+  sched T n step ots s = Some s' ->
+  same_shape s s' /\ (excl_tables_check T = true -> heights_of ht s -> excl_inv T s -> excl_inv T s').
+Proof. exact sched_good. Qed.
+Print Assumptions C13_sched_keeps_shape_and_exclusion.
+
+(* non-vacuity and the sleeping mechanism on the real tables: a bias with timeStepFactor 2 on variable 0 of the example state:
+   at an odd step the bias loses `awake`, hence its last reference on `active`, and its variables lose the references it held *)
+Example C13_example_sched : exists m s1 s2,
+  m_run gen_tables 40 (firstn 8 ex_ops) (m_empty 5) = Some m /\
+  sched gen_tables 40 0 [(7, 2)] (m_objs m) = Some s1 /\ is_enabled s1 7 1 = true /\ is_enabled s1 7 0 = true /\ rc s1 0 0 = 1%Z /\
+  sched gen_tables 40 1 [(7, 2)] s1 = Some s2 /\ is_enabled s2 7 1 = false /\ is_enabled s2 7 0 = false /\ rc s2 0 0 = 0%Z /\
+  is_enabled s2 0 0 = false.
+Proof.
+  do 3 eexists. split; [vm_compute; reflexivity|]. split; [vm_compute; reflexivity|]. repeat (split; [vm_compute; reflexivity|]).
+  vm_compute. reflexivity.
 Qed.
